@@ -10,6 +10,9 @@ R19.4  codec pairing: serializer primitives, PythonTask encoders vs decoder
 R19.5  slot converters carry every key of Slot._schema
 R19.6  derived defaults of _verify come after the alias blocks they depend on
 R19.4b payload values are encoded at call time (inside the encoder)
+R19.7  the mapping in which Slot/Node.__init__ convert compact core / GPU
+       entries is the one the base constructor receives; no argument of
+       higher precedence carries the same input unconverted
 """
 
 import ast
@@ -1712,6 +1715,344 @@ def r19_5(prog, rep, rid='R19.5'):
 
 
 # ------------------------------------------------------------------------------
+# R19.7  what a typed-dict constructor normalises is what the base
+#        constructor receives (definition must reach the use; aliasing)
+#
+COPY_FUNCS = {'dict', 'copy.copy', 'copy.deepcopy', 'copy', 'deepcopy',
+              'ru.as_dict', 'as_dict'}
+NORMALISERS = ((RC, 'Slot'), (RC, 'Node'))
+
+
+class MapState:
+    """per-path facts about the mapping objects of a constructor.
+    env   : local name -> token of the object it refers to
+    norm  : (token, key) - the entry `key` of that object holds a value the
+            constructor stored (a copy inherits the entries of its source)
+    events: (token, key) - the stores themselves
+    roots : token -> tokens of the caller's objects it was copied from"""
+
+    def __init__(self, env=(), norm=(), events=(), roots=()):
+        self.env, self.norm = dict(env), set(norm)
+        self.events, self.roots = set(events), dict(roots)
+
+    def freeze(self):
+        return (frozenset(self.env.items()), frozenset(self.norm),
+                frozenset(self.events), frozenset(self.roots.items()))
+
+    @classmethod
+    def thaw(cls, fz):
+        return cls(*fz)
+
+
+def _map_key(sl):
+    if isinstance(sl, ast.Constant) and isinstance(sl.value, str):
+        return sl.value
+    return '$' + unparse(sl)
+
+
+def _bind(callee, call):
+    a = callee.node.args
+    pos = [x.arg for x in a.posonlyargs + a.args]
+    static = any(isinstance(d, ast.Name) and d.id == 'staticmethod'
+                 for d in callee.node.decorator_list)
+    if callee.cls is not None and not static and pos and \
+            isinstance(call.func, ast.Attribute):
+        pos = pos[1:]
+    out = {}
+    for p, v in zip(pos, call.args):
+        if isinstance(v, ast.Starred):
+            break
+        out[p] = v
+    names = set(pos) | {x.arg for x in a.kwonlyargs}
+    for k in call.keywords:
+        if k.arg in names:
+            out[k.arg] = k.value
+    return out
+
+
+def _param_item_stores(callee, param):
+    """keys of `<param>[key] = ..` / `<param>.update(key=..)` in callee"""
+    out = set()
+    for kind, target, stmt in I.stores(callee.node):
+        if kind in ('assign', 'aug') and isinstance(target, ast.Subscript) \
+                and isinstance(target.value, ast.Name) and \
+                target.value.id == param:
+            out.add(_map_key(target.slice))
+    for c in calls_in(callee.node):
+        if call_name(c) == param + '.update':
+            out |= {k.arg for k in c.keywords if k.arg}
+            for a in c.args:
+                if isinstance(a, ast.Dict):
+                    out |= {_map_key(k) for k in a.keys if k is not None}
+    return out
+
+
+class CtorMaps:
+    """symbolic run of a constructor up to its super().__init__ call"""
+
+    def __init__(self, prog, f):
+        self.prog, self.f = prog, f
+        self.g = cfg_of(f)
+        self.smap = I.stmt_node_map(self.g)
+        self.supers = [c for c in calls_in(f.node)
+                       if call_name(c) == 'super().__init__' and
+                       self.smap.get(id(c)) is not None]
+        self.super_nodes = {self.smap[id(c)].id: c for c in self.supers}
+        # `x = a or b` over mapping names: one run per choice
+        self.choices = []
+        self.unknown = {}
+
+    # -- values ---------------------------------------------------------------
+    def value(self, expr, st, nid, pick):
+        """token of the object expr evaluates to (new tokens are entered into
+        st.roots / st.norm)"""
+        if isinstance(expr, ast.Name):
+            return st.env.get(expr.id, 'g:' + expr.id)
+        if isinstance(expr, ast.BoolOp) and isinstance(expr.op, ast.Or) and \
+                all(isinstance(v, ast.Name) for v in expr.values):
+            i = pick.get(id(expr))
+            if i is None:
+                raise _NeedChoice(expr)
+            return self.value(expr.values[i], st, nid, pick)
+        srcs = None
+        if isinstance(expr, ast.Call):
+            cn = call_name(expr)
+            if cn in COPY_FUNCS:
+                srcs = [a for a in expr.args] + \
+                    [k.value for k in expr.keywords if k.arg is None]
+                if any(k.arg is not None for k in expr.keywords) and \
+                        cn != 'dict':
+                    srcs = None
+            elif isinstance(expr.func, ast.Attribute) and \
+                    expr.func.attr in ('copy', 'as_dict') and \
+                    not expr.args and not expr.keywords:
+                srcs = [expr.func.value]
+        elif isinstance(expr, ast.Dict) and any(k is None for k in expr.keys):
+            srcs = [v for k, v in zip(expr.keys, expr.values) if k is None]
+        if srcs is not None and all(isinstance(x, ast.Name) for x in srcs):
+            toks = [self.value(x, st, nid, pick) for x in srcs]
+            if toks:
+                t = 'c:%d:%s' % (nid, '+'.join(toks))
+                roots = set()
+                for x in toks:
+                    roots |= set(st.roots.get(x, (x,)))
+                    st.norm |= {(t, k) for tk, k in list(st.norm) if tk == x}
+                st.roots[t] = tuple(sorted(roots))
+                if any(x.startswith('u:') for x in toks):
+                    t = 'u:%d' % nid
+                return t
+        mentions = [n.id for n in walk(expr) if isinstance(n, ast.Name) and
+                    not st.env.get(n.id, 'n:').startswith('n:')]
+        return ('u:%d' if mentions else 'n:%d') % nid
+
+    def store(self, st, tok, key):
+        st.norm.add((tok, key))
+        st.events.add((tok, key))
+
+    # -- one statement --------------------------------------------------------
+    def transfer_for(self, pick):
+        def transfer(node, edge, fz):
+            if edge.label == 'exc':
+                return fz
+            st = MapState.thaw(fz)
+            a = node.ast
+            if node.kind == 'for' and edge.label == 'iter':
+                for nm in stores_in_target(a.target):
+                    st.env[nm] = 'n:%d' % node.id
+                return st.freeze()
+            if node.kind == 'with':
+                for it in a.items:
+                    if it.optional_vars is not None:
+                        for nm in stores_in_target(it.optional_vars):
+                            st.env[nm] = 'n:%d' % node.id
+                return st.freeze()
+            if node.kind != 'stmt':
+                return fz
+            # helpers which get a mapping and store into it
+            for c in calls_in(a):
+                if c in self.supers:
+                    continue
+                callee = self.prog.resolve_call(self.f, c)
+                if callee is None:
+                    continue
+                for p, v in _bind(callee, c).items():
+                    if isinstance(v, ast.Name) and v.id in st.env:
+                        for k in _param_item_stores(callee, p):
+                            self.store(st, st.env[v.id], k)
+            for c in calls_in(a):
+                if call_name(c).endswith('.update') and \
+                        isinstance(c.func, ast.Attribute) and \
+                        isinstance(c.func.value, ast.Name) and \
+                        c.func.value.id in st.env and \
+                        self.prog.resolve_call(self.f, c) is None:
+                    tok = st.env[c.func.value.id]
+                    for k in c.keywords:
+                        if k.arg:
+                            self.store(st, tok, k.arg)
+                    for x in c.args:
+                        if isinstance(x, ast.Dict):
+                            for k in x.keys:
+                                if k is not None:
+                                    self.store(st, tok, _map_key(k))
+            if isinstance(a, (ast.Assign, ast.AnnAssign, ast.AugAssign)):
+                targets = a.targets if isinstance(a, ast.Assign) else \
+                    [a.target]
+                val = None
+                for t in targets:
+                    for e in I._flat(t):
+                        if isinstance(e, ast.Subscript) and \
+                                isinstance(e.value, ast.Name) and \
+                                e.value.id in st.env:
+                            self.store(st, st.env[e.value.id],
+                                       _map_key(e.slice))
+                for t in targets:
+                    if isinstance(t, ast.Name):
+                        if isinstance(a, ast.AugAssign) or a.value is None:
+                            st.env[t.id] = 'u:%d' % node.id
+                            continue
+                        if val is None:
+                            val = self.value(a.value, st, node.id, pick)
+                        st.env[t.id] = val
+                    elif isinstance(t, (ast.Tuple, ast.List)):
+                        for nm in stores_in_target(t):
+                            st.env[nm] = 'u:%d' % node.id
+            return st.freeze()
+        return transfer
+
+    def runs(self):
+        """[(super call, MapState at the call, literals of a witness path)]"""
+        params = [p for p in self.f.params if p != 'self']
+        init = MapState(env={p: 'p:' + p for p in params})
+        picks = [{}]
+        out = []
+        tried = 0
+        while picks:
+            pick = picks.pop()
+            tried += 1
+            if tried > 16:
+                raise AnalysisError('UNRECOGNISED-IDIOM %s: too many `a or b` '
+                                    'mapping choices' % self.f.where)
+            try:
+                ex = Exploration(self.g, self.g.entry.id, init.freeze(),
+                                 self.transfer_for(pick),
+                                 stop=lambda nid: nid in self.super_nodes or
+                                 nid in (self.g.exit.id, self.g.raise_.id))
+            except _NeedChoice as e:
+                for i in range(len(e.expr.values)):
+                    p2 = dict(pick)
+                    p2[id(e.expr)] = i
+                    picks.append(p2)
+                continue
+            for t in ex.terminals:
+                if t.node in self.super_nodes:
+                    out.append((self.super_nodes[t.node], MapState.thaw(
+                        t.state), ex.literals(t), t.node, pick))
+        return out
+
+
+class _NeedChoice(Exception):
+    def __init__(self, expr):
+        self.expr = expr
+
+
+def r19_7(prog, rep, rid='R19.7'):
+    rep.rule(rid, 'an entry which Slot.__init__ / Node.__init__ converts in '
+             'the input mapping reaches the base constructor: the converted '
+             'object (or a copy made after the conversion) is handed to '
+             'super().__init__, and no argument of higher precedence carries '
+             'the same input unconverted', minimum=2)
+    for rel, cname in NORMALISERS:
+        f = prog.method(rel, cname, '__init__')
+        rep.saw(f)
+        cm = CtorMaps(prog, f)
+        if not cm.supers:
+            raise AnalysisError('UNRECOGNISED-IDIOM %s: no super().__init__ '
+                                'call' % f.where)
+        runs = cm.runs()
+        rep.stat('paths', len(runs))
+        seen_keys, reported = set(), set()
+        for call, st, lits, nid, pick in runs:
+            if not st.events:
+                continue
+            # arguments of the base constructor in order of precedence
+            args = []
+            pos = call.args[0] if call.args else kwarg(call, 'from_dict')
+            if pos is not None:
+                args.append(('the mapping `%s`' % short(pos, 30), pos))
+            for k in call.keywords:
+                if k.arg is None:
+                    args.append(('`**%s`' % short(k.value, 30), k.value))
+            toks = []
+            for text, e in args:
+                try:
+                    toks.append((text, cm.value(e, st, nid, pick)))
+                except _NeedChoice:
+                    raise AnalysisError('UNRECOGNISED-IDIOM %s: `%s` as '
+                                        'argument' % (f.where, short(e)))
+            for tok, key in sorted(st.events):
+                seen_keys.add(key)
+                if tok.startswith('u:') or \
+                        any(t.startswith('u:') for _, t in toks):
+                    raise AnalysisError(
+                        'UNRECOGNISED-IDIOM %s: the mapping which is '
+                        'converted / handed to super().__init__ is computed '
+                        'by something else than an alias or a copy'
+                        % f.where)
+                roots = set(st.roots.get(tok, (tok,)))
+                same = [(text, t) for text, t in toks
+                        if roots & set(st.roots.get(t, (t,)))]
+                kname = key if not key.startswith('$') else key[1:]
+                via = '; '.join(lits[-4:])
+                if not same:
+                    if (key, 'lost') not in reported:
+                        reported.add((key, 'lost'))
+                        rep.bad(rid, f, '%s:%s:lost' % (cname, kname),
+                                '%s.__init__ stores the converted %r into a '
+                                'mapping which is not handed to '
+                                'super().__init__ (arguments: %s): the '
+                                'conversion of compact core / GPU entries to '
+                                'RO records is lost, the object keeps the '
+                                'entries as they were given'
+                                % (cname, kname, ', '.join(
+                                    t for t, _ in args) or 'none'),
+                                f.loc(call),
+                                history='%s({.., %r: [3, 4]}) [path: %s]: '
+                                '.%s == [3, 4] (ints) instead of RO records; '
+                                'as_dict() / verify() differ from the same '
+                                'placement in the other format'
+                                % (cname, kname, via, kname))
+                    continue
+                text, last = same[-1]
+                if (last, key) not in st.norm:
+                    if (key, 'raw') not in reported:
+                        reported.add((key, 'raw'))
+                        rep.bad(rid, f, '%s:%s:raw' % (cname, kname),
+                                '%s.__init__ converts %r in one object but '
+                                'hands the same input unconverted to '
+                                'super().__init__ as %s, which is applied '
+                                'last (keywords take precedence in '
+                                'TypedDict.__init__): the raw entries '
+                                'overwrite the converted RO records'
+                                % (cname, kname, text), f.loc(call),
+                                history="%s(node_index=0, node_name='n', "
+                                "%s=[3]) [path: %s]: .%s == [3] (ints), not "
+                                "[RO(index=3)]; the same placement given as "
+                                "a dict converts - the two formats no longer "
+                                "agree, TaskDescription.verify() refuses "
+                                "the slot" % (cname, kname, via, kname))
+        if not seen_keys:
+            raise AnalysisError('UNRECOGNISED-IDIOM %s: no store into the '
+                                'input mapping found' % f.where)
+        if not reported:
+            rep.ok(rid, f, '%s.__init__: the mapping in which %s are '
+                   'converted is the one super().__init__ receives, no '
+                   'later argument carries them unconverted'
+                   % (cname, '/'.join(sorted(k.lstrip('$')
+                                              for k in seen_keys))),
+                   f.loc(cm.supers[0]))
+
+
+# ------------------------------------------------------------------------------
 # R19.3  information
 #
 def r19_3(prog, rep, rid='R19.3'):
@@ -1763,6 +2104,7 @@ def run(prog, rep, tier):
     r19_2b(prog, rep)
     r19_4(prog, rep)
     r19_5(prog, rep)
+    rep.attempt(r19_7, prog, rep)
     if tier == 'thorough':
         r19_3(prog, rep)
 
@@ -2020,4 +2362,87 @@ MUTATIONS += [
         (_Y, "    task = {'func'  : serialize_obj(func),", "    task = {'func'  : func,")]),
     dict(name='R19.4 corpus C19-r4, __new__ passes kwargs=None to the helper', rules=('R19.4',), edits=_CORPUS['C19-r4'] + [
         (_Y, "        return _encode_call(func, args, kwargs or {})", "        return _encode_call(func, args, kwargs)")]),
+]
+
+
+# ------------------------------------------------------------------------------
+# R19.7: Slot.__init__ / Node.__init__
+#
+_R = 'resource_config.py'
+_SLOT_ALIAS = "        if not from_dict:\n            from_dict = kwargs\n"
+_SLOT_HEAD  = "        if from_dict:\n\n            cores = from_dict.get('cores')\n"
+_SLOT_SUPER = "        super().__init__(from_dict, **kwargs)\n"
+_SLOT_CONV  = ("            cores = from_dict.get('cores')\n"
+               "            gpus  = from_dict.get('gpus')\n"
+               "\n"
+               "            if cores:\n"
+               "                # this is much faster than `isinstance`\n"
+               "                if cores[0].__class__.__name__ == 'dict':\n"
+               "                    from_dict['cores'] =  [RO(d) for d in cores]\n"
+               "\n"
+               "                elif isinstance(cores[0], int):\n"
+               "                    from_dict['cores'] =  [RO(index=i, occupation=BUSY)\n"
+               "                                                 for i in cores]\n"
+               "\n"
+               "            if gpus:\n"
+               "                if gpus[0].__class__.__name__ == 'dict':\n"
+               "                    from_dict['gpus'] =  [RO(d) for d in gpus]\n"
+               "\n"
+               "                elif isinstance(gpus[0], int):\n"
+               "                    from_dict['gpus'] =  [RO(index=i, occupation=BUSY)\n"
+               "                                                for i in gpus]\n")
+_NODE_HEAD  = "        self.__lock__ = mt.RLock()\n\n        cores = from_dict.get('cores')\n"
+_NODE_SUPER = "        super().__init__(from_dict)\n\n\n    # --------------------------------------------------------------------------\n    #\n    def _get_core_index(self, ro):\n"
+_NODE_CONV  = ("        cores = from_dict.get('cores')\n"
+               "        gpus  = from_dict.get('gpus')\n"
+               "\n"
+               "        if cores:\n"
+               "            if not isinstance(cores[0], RO):\n"
+               "                from_dict['cores'] = [RO(index=i, occupation=o)\n"
+               "                                                    for i,o in enumerate(cores)]\n"
+               "\n"
+               "        if gpus:\n"
+               "            if not isinstance(gpus[0], RO):\n"
+               "                from_dict['gpus'] = [RO(index=i, occupation=o)\n"
+               "                                                     for i,o in enumerate(gpus)]\n")
+
+MUTATIONS += [
+    dict(name='R19.7 seed C19-e: Slot.__init__ converts on a copy, the raw keywords win again', rules=('R19.7',), edits=[
+        (_R, _SLOT_HEAD, "        if from_dict:\n\n            from_dict = dict(from_dict)\n\n            cores = from_dict.get('cores')\n")]),
+    dict(name='R19.7 Slot.__init__ takes the keywords as a copy instead of an alias', rules=('R19.7',), edits=[
+        (_R, _SLOT_ALIAS, "        if not from_dict:\n            from_dict = {**kwargs}\n")]),
+    dict(name='R19.7 Slot.__init__ copies the input before the keyword form is chosen (`or` spelling)', rules=('R19.7',), edits=[
+        (_R, _SLOT_ALIAS, "        from_dict = from_dict or kwargs\n        data = from_dict.copy()\n"),
+        (_R, _SLOT_CONV, _SLOT_CONV.replace("from_dict['", "data['")),
+        (_R, _SLOT_SUPER, "        super().__init__(data, **kwargs)\n")]),
+    dict(name='R19.7 Slot.__init__ converts in a working copy but hands the original on', rules=('R19.7',), edits=[
+        (_R, _SLOT_HEAD, "        if from_dict:\n\n            data  = dict(from_dict)\n            cores = from_dict.get('cores')\n"),
+        (_R, _SLOT_CONV, _SLOT_CONV.replace("from_dict['", "data['"))]),
+    dict(name='R19.7 Node.__init__ hands on a copy taken before the conversion', rules=('R19.7',), edits=[
+        (_R, _NODE_HEAD, "        self.__lock__ = mt.RLock()\n\n        orig  = from_dict.copy()\n        cores = from_dict.get('cores')\n"),
+        (_R, _NODE_SUPER, _NODE_SUPER.replace("(from_dict)", "(orig)"))]),
+]
+
+SILENT += [
+    dict(name='Slot.__init__ chooses the keyword form with `or`', edits=[
+        (_R, _SLOT_ALIAS, "        from_dict = from_dict or kwargs\n")]),
+    dict(name='Slot.__init__ hands a copy made after the conversion to the base class', edits=[
+        (_R, _SLOT_SUPER, "        super().__init__(dict(from_dict), **kwargs)\n")]),
+    dict(name='Slot.__init__ converts through a local alias of the input', edits=[
+        (_R, _SLOT_HEAD, "        if from_dict:\n\n            data  = from_dict\n            cores = from_dict.get('cores')\n"),
+        (_R, _SLOT_CONV, _SLOT_CONV.replace("from_dict['", "data['"))]),
+    dict(name='Slot.__init__ copies on entry and lets the keywords travel in the copy only', edits=[
+        (_R, _SLOT_ALIAS, "        if not from_dict:\n            from_dict = kwargs\n            kwargs    = dict()\n"),
+        (_R, _SLOT_HEAD, "        if from_dict:\n\n            from_dict = dict(from_dict)\n\n            cores = from_dict.get('cores')\n")]),
+    dict(name='Slot.__init__ conversion extracted into a static helper which stores into the mapping', edits=[
+        (_R, "    def __init__(self, from_dict: dict = None, **kwargs):\n\n        if not from_dict:\n            from_dict = kwargs\n",
+             "    @staticmethod\n    def _to_ros(data, kind):\n\n        vals = data.get(kind)\n        if not vals:\n            return\n"
+             "        if vals[0].__class__.__name__ == 'dict':\n            data[kind] = [RO(d) for d in vals]\n"
+             "        elif isinstance(vals[0], int):\n            data[kind] = [RO(index=i, occupation=BUSY) for i in vals]\n\n\n"
+             "    def __init__(self, from_dict: dict = None, **kwargs):\n\n        if not from_dict:\n            from_dict = kwargs\n"),
+        (_R, _SLOT_CONV, "            self._to_ros(from_dict, 'cores')\n            self._to_ros(from_dict, 'gpus')\n")]),
+    dict(name='Node.__init__ converts in a loop over the two kinds and hands a late copy on', edits=[
+        (_R, _NODE_CONV, "        for kind in ('cores', 'gpus'):\n            vals = from_dict.get(kind)\n            if not vals or isinstance(vals[0], RO):\n                continue\n"
+                         "            from_dict[kind] = [RO(index=i, occupation=o)\n                               for i, o in enumerate(vals)]\n"),
+        (_R, _NODE_SUPER, _NODE_SUPER.replace("(from_dict)", "(from_dict.copy())"))]),
 ]
